@@ -69,6 +69,11 @@ def comb_gen(U, ncomb, seed):
             for j in range(n):
                 ps = U[rnd.randrange(len(U))]
                 funcs.append([dict(arg, k='po' if ps and ps[0]['k'] == 'po' else 'pok')] + list(ps))
+            if k % 11 == 4:
+                # the first member takes the value through its *args (no parameter of its own for it)
+                first = [p for p in funcs[0] if p['k'] in ('var', 'kwo', 'vkw')]
+                if any(p['k'] == 'var' for p in first):
+                    funcs[0] = first
             if k % nshards == shard:
                 yield wrapstack.combination_event('comb/%d' % k, funcs, wrapped_member=(k % 5 == 0), forwarding_member=(k % 3 == 1))
     return gen
